@@ -533,7 +533,7 @@ def c01_5(R):
             R.fail([pim.name, "add_remove-offset", "shape=%s nonneg-guard=%s" % (okoff, nonneg)], "a packet is handed to the reassembly queue with an offset that is not its sequence distance from the receive cursor, or without rejecting already-consumed (negative) offsets", where=t.where(), instance="slot=sequence-offset")
 
 
-@rule("C01.2", ["C01", "C06"], ["E4"], "every transmission addresses the ring by the segment's own (offset, len) and carries that segment's sequence number",
+@rule("C01.2", ["C01", "C06", "C03"], ["E4"], "every transmission addresses the ring by the segment's own (offset, len) and carries that segment's sequence number",
       "In each of the three send_data! expansions: prepare_2_ioslices is called with (as_slices().0, as_slices().1) of the TX consumer in that order, offset <- payload_offset() and len <- payload_size() "
       "of the captured segment; header.seq_nr <- seq_nr() of the same captured segment; the IoSlices handed to try_poll_send_to_vectored are [header bytes, result[0], result[1]] in that order and "
       "total_len = hlen + payload_size(). In Segments::iter_mut_for_sending the yielded payload_offset is payload_offset_absolute.checked_sub(removed_offset) (operand order) and seq_nr is "
